@@ -712,6 +712,8 @@ enum Reg {
     Z143(usize),
     Z243(usize),
     Empty(VSel, BranchId),
+    /// hand-built transparent shapes: (version, branch, coinbase?, #inputs, #outputs)
+    Shape(VSel, BranchId, bool, usize, usize),
 }
 
 fn regression_list() -> Vec<Reg> {
@@ -736,7 +738,36 @@ fn regression_list() -> Vec<Reg> {
         v.push(Reg::Empty(VSel::V5, b));
     }
     v.push(Reg::Empty(VSel::V6, BranchId::Nu6_3));
+    for (vs, b) in [(VSel::V3, BranchId::Overwinter), (VSel::V4, BranchId::Canopy), (VSel::V5, BranchId::Nu5), (VSel::V5, BranchId::Nu6_3), (VSel::V6, BranchId::Nu6_3)] {
+        // coinbase with one output; SINGLE beyond the outputs (3 inputs, 1 output; 2 inputs, 0 outputs);
+        // inputs == outputs; outputs only
+        for (cb, ni, no) in [(true, 1, 1), (false, 3, 1), (false, 2, 0), (false, 2, 2), (false, 0, 2)] {
+            v.push(Reg::Shape(vs, b, cb, ni, no));
+        }
+    }
     v
+}
+
+fn shape_case(vs: VSel, b: BranchId, coinbase: bool, ni: usize, no: usize) -> Case {
+    let vin: Vec<TxIn<tbundle::Authorized>> = (0..ni)
+        .map(|i| {
+            let prev = if coinbase { OutPoint::NULL } else { OutPoint::new([0x11 * (i as u8 + 1); 32], i as u32) };
+            TxIn::from_parts(prev, mk_script(&vec![0x51; i + 1]), 0xffff_fffe - i as u32)
+        })
+        .collect();
+    let vout: Vec<TxOut> = (0..no).map(|k| TxOut::new(Zatoshis::from_u64(1000 + k as u64).unwrap(), mk_script(&[0x76, 0xa9, k as u8]))).collect();
+    let coins: Vec<Coin> = (0..ni)
+        .map(|i| Coin {
+            value: 50_000 + i as u64,
+            script: vec![0xac, i as u8],
+        })
+        .collect();
+    let t = tbundle::Bundle {
+        vin,
+        vout,
+        authorization: tbundle::Authorized,
+    };
+    build_case(vs, b, 7, 500_000, Some(t), None, None, None, coins, 0x0123_4567_89ab_cdef)
 }
 
 fn describe_reg(r: &Reg) -> String {
@@ -745,6 +776,7 @@ fn describe_reg(r: &Reg) -> String {
         Reg::Z143(i) => format!("ZIP 143 test vector #{i}"),
         Reg::Z243(i) => format!("ZIP 243 test vector #{i}"),
         Reg::Empty(v, b) => format!("empty {v:?} transaction under branch {b:?}"),
+        Reg::Shape(v, b, cb, ni, no) => format!("{v:?} under {b:?}: coinbase={cb}, {ni} inputs, {no} outputs"),
     }
 }
 
@@ -852,6 +884,13 @@ fn check_regression(r: &Reg) -> CaseResult {
         Reg::Empty(v, b) => {
             let c = build_case(*v, *b, 0, 0, None, None, None, None, vec![], 0);
             check_reference(&c).map(|o| o.label("empty-transaction"))
+        }
+        Reg::Shape(v, b, cb, ni, no) => {
+            let c = shape_case(*v, *b, *cb, *ni, *no);
+            let o = check_reference(&c)?;
+            let m = check_metamorphic(&c)?;
+            let n: u64 = m.counters.iter().filter(|(k, _)| *k == "positions-exercised").map(|(_, v)| *v).sum();
+            Ok(o.label("hand-built-shape").count("positions-exercised", n))
         }
     }
 }
